@@ -253,7 +253,7 @@ def _unescape(p):
 
 SIG_VARIANTS = ["valid", "valid", "valid", "pct-valid", "pct-valid", "t-escape", "t-escape", "t-ts", "t-method", "t-path", "t-query", "t-body", "t-body", "t-body-empty", "t-body-empty",
                 "empty-body", "t-key", "routed-path",
-                "off-in", "off-edge", "off-out-past", "off-out-future", "off-out-future", "ts-extreme", "ts-junk", "corrupt", "unknown-fp", "hdr-missing",
+                "off-in", "off-edge", "off-out-past", "off-out-future", "off-out-future", "ts-extreme", "ts-far", "ts-far", "ts-junk", "corrupt", "unknown-fp", "hdr-missing",
                 "hdr-shape", "hdr-dup", "plain-defect", "sig-junk", "other-method", "enc-ok", "enc-bad", "junk-secret"]
 
 
@@ -313,10 +313,16 @@ def gen_sig(rng, variant=None):
         c["tsoff"] = rng.choice([-1, 1]) * (tol + rng.choice([-1, 0, 1]))
     elif v in ("off-out-past", "off-out-future"):
         c["tsoff"] = (1 if v == "off-out-future" else -1) * (tol + rng.choice([5, 6, 60, 86400]))
+    elif v == "ts-far":
+        # correctly signed, the clock offset is astronomically large: multiples of 2^55 s are multiples of 2^64 ns, so any
+        # comparison done in nanoseconds (time.Duration) wraps to a small value; the int64 seconds test must still refuse
+        big = 2 ** 55
+        c["tsoff"] = rng.choice([1, -1]) * rng.choice([big, big + 17, big - 3, 3 * big, 3 * big + 5, 2 * big, 2 ** 56 + 1, 2 ** 61])
     elif v == "ts-extreme":
         c["tsoff"] = None
-        c["tsraw"] = rng.choice(["9223372036854775807", "-9223372036854775808", "9223372036854775808", "-1", "0",
-                                 "9223372036854775000", "-9223372036854775000", "18446744073709551616", "+5"])
+        c["tsraw"] = rng.choice(["9223372036854775807", "-9223372036854775808", "9223372036854775808", "-1", "0", "-1700000000",
+                                 "9223372036854775000", "-9223372036854775000", "18446744073709551616", "+5", "-36028797018963968",
+                                 "9223372036854775807", "-9223372036854775808"])
     elif v == "ts-junk":
         c["tsoff"] = None
         c["tsraw"] = rng.choice(["12x", "", "abc", "1e9", "0x10", "1_000", "--1", "+", "1.5"])
@@ -528,6 +534,24 @@ def gen_ejwt(rng):
     return {"kind": "ejwt", "groups": groups, "secrets": secrets, "tokens": tokens, "reqs": reqs}
 
 
+def gen_rpc_outage(rng):
+    """a LONG store outage (the store answers every command with an error): hundreds of lookups from uncached apps, far more than the
+    redis handle's breaker tolerates, so that later answers come from the breaker (ErrServiceUnavailable) instead of the redis error;
+    every uncached app is rejected (Internal) in strict mode / served in lax mode throughout; cached apps keep their verdicts"""
+    known = ["live-%d" % i for i in range(6)]
+    ops = [{"op": "set", "app": a, "token": "tok-" + a} for a in known]
+    ops.append({"op": "call", "nomd": False, "apps": [known[0]], "tokens": ["tok-" + known[0]]})      # cached before the outage
+    ops.append({"op": "seterr"})
+    ops.append({"op": "call", "nomd": False, "apps": [known[1]], "tokens": ["tok-" + known[1]]})
+    ops.append({"op": "flood", "app": "during-", "token": rng.choice(["x", "tok-live-2"]), "n": rng.choice([400, 600])})
+    for a in known[2:]:
+        ops.append({"op": "call", "nomd": False, "apps": [a], "tokens": [rng.choice(["tok-" + a, "forged"])]})
+    ops.append({"op": "call", "nomd": False, "apps": [known[0]], "tokens": ["tok-" + known[0]]})
+    ops.append({"op": "call", "nomd": False, "apps": [known[0]], "tokens": ["forged"]})
+    ops.append({"op": "flood", "app": "later-", "token": "x", "n": 50})
+    return {"kind": "rpc", "strict": rng.random() < 0.6, "ops": ops}
+
+
 def gen_rpc_flood(rng):
     """thousands of calls for apps without a stored token against a healthy store, then verdicts on fresh known apps"""
     known = ["known-%d" % i for i in range(rng.choice([6, 8, 10]))]
@@ -598,6 +622,10 @@ def gen_rpcn(rng):
 def generate(rng, tier, n):
     cases = []
     if tier != "search":
+        for strict in (True, False):
+            c = gen_rpc_outage(rng)
+            c["strict"] = strict
+            cases.append(c)
         # the four (Auth, StrictControl) configurations through rpc.NewServer, every run
         for auth in (True, False):
             for strict in (True, False):
@@ -633,7 +661,7 @@ def generate(rng, tier, n):
         elif r < 0.875:
             cases.append(gen_ejwt(rng))
         elif r < 0.895:
-            cases.append(gen_rpc_flood(rng) if rng.random() < 0.5 else gen_rpcs(rng))
+            cases.append(rng.choice([gen_rpc_flood, gen_rpcs, gen_rpc_outage])(rng))
         elif r < 0.91:
             cases.append(gen_rpcn(rng))
         elif r < 0.93:
@@ -670,7 +698,7 @@ def search(rng, problems):
                 c = gen_rpcn(rng)
                 c["auth"], c["strict"] = auth, strict
                 out.append(c)
-    for v in ("pct-valid", "t-escape"):
+    for v in ("pct-valid", "t-escape", "ts-far", "ts-extreme"):
         for _ in range(8):
             c = gen_sig(rng, v)
             c["strict"] = True
@@ -686,6 +714,10 @@ def search(rng, problems):
             out.append(c)
     for _ in range(20):
         out.append(gen_ejwt(rng))
+    for strict in (True, True, False):
+        c = gen_rpc_outage(rng)
+        c["strict"] = strict
+        out.append(c)
     for strict in (False, True, False, True):
         c = gen_rpc_flood(rng)
         c["strict"] = strict
@@ -851,9 +883,9 @@ def rpc_steps(case):
             store[op["app"]] = op["token"]
         elif k == "del":
             store.pop(op["app"], None)
-        elif k == "down":
+        elif k in ("down", "seterr"):
             down = True
-        elif k == "up":
+        elif k in ("up", "clearerr"):
             down = False
         elif k == "call":
             out.append((down, dict(store), op))
@@ -899,16 +931,16 @@ def enc_rpcf(case, obs):
             store[op["app"]] = op["token"]
         elif k == "del":
             store.pop(op["app"], None)
-        elif k == "down":
+        elif k in ("down", "seterr"):
             down = True
-        elif k == "up":
+        elif k in ("up", "clearerr"):
             down = False
         elif k == "flood":
             row = next(rows)
             hist = row["flood"]
             code = int(next(iter(hist))) if len(hist) == 1 else -2     # not uniform: a code no model produces
             st = clist([cpair(cN(sid(a)), cN(sid(t))) for a, t in sorted(store.items())])
-            ops.append("(OFlood %s %s %s %s %s)" % (cN(op["n"]), cN(base), cN(sid(op["token"])), st, cZ(code)))
+            ops.append("(OFlood %s %s %s %s %s %s)" % (cbool(down), cN(op["n"]), cN(base), cN(sid(op["token"])), st, cZ(code)))
             base += op["n"] + 10
         elif k in ("call", "burst"):
             row = next(rows)
@@ -1091,6 +1123,8 @@ def bucket(case, obs):
         out.append("sig:secret-blocks=%s%s" % (nblocks if nblocks < 3 else "3+", ":exactly-117" if plen == 117 else ""))
         if nblocks >= 2 and case["intent"]["variant"] == "valid" and case["strict"]:
             out.append("sig:multi-block-secret:valid:%d" % obs["status"])
+        if case["intent"]["variant"] in ("ts-far", "ts-extreme"):
+            out.append("sig:%s:%s:%d" % (case["intent"]["variant"], "strict" if case["strict"] else "lax", obs["status"]))
         if case["intent"]["variant"] == "enc-size":
             out.append("sig:enc-size:wire=%d:%d%s" % (obs["sentlen"], obs["status"], ":decrypted-body" if obs["seen"] == 1 else ""))
         if case["intent"]["type"] == 1 and obs["clen"] < 0 and obs["ran"] and obs["seenbody"] == obs["sentbody"] and obs["sentbody"] != "":
@@ -1160,6 +1194,8 @@ def bucket(case, obs):
             out.append("rpc:after-flood:" + ",".join("%d x%d" % (c, after.count(c)) for c in sorted(set(after))))
         if any(o["op"] == "down" for o in case["ops"]):
             out.append("rpc:outage")
+        if any(o["op"] == "seterr" for o in case["ops"]):
+            out.append("rpc:long-outage:" + ("strict" if case["strict"] else "lax"))
     return out
 
 
